@@ -3,4 +3,4 @@ From Coq Require Import ZArith List Extraction ExtrOcamlBasic.
 From MomoCommon Require Import GenPrelude.
 From C20 Require Gen_UIntMath Gen_MemPoolConst PoolAlloc.
 Separate Extraction PoolAlloc.step PoolAlloc.init PoolAlloc.proto_ok PoolAlloc.h_ok PoolAlloc.routed_ok
-  PoolAlloc.outstanding PoolAlloc.get_params PoolAlloc.swap_ops.
+  PoolAlloc.outstanding PoolAlloc.get_params PoolAlloc.swap_ops PoolAlloc.from_cache.
